@@ -480,19 +480,80 @@ func minInt(a, b int) int {
 	return b
 }
 
-// declared sizes above a million are outside the property
+// declared sizes above a million are outside the property.  For the native format the header is walked field by
+// field, as the format defines it (gate, wire, input and output counts; per argument: name length, type length,
+// bit size, compound member count, recursively): a mutation that lands on any of these and declares more than
+// 10^6 makes the parser allocate that much before it can notice that the file is short.
 func oversize(format string, d []byte) bool {
+	const limit = 1000000
 	if format == "mpclc" {
 		if len(d) < 20 {
 			return false
 		}
 		for i := 1; i <= 4; i++ {
-			if binary.BigEndian.Uint32(d[4*i:]) > 1000000 {
+			if binary.BigEndian.Uint32(d[4*i:]) > limit {
 				return true
 			}
 		}
-		// string lengths and compound counts inside the header are checked by a scan of plausible fields
-		return false
+		off := 20
+		u32 := func() (uint32, bool) {
+			if off+4 > len(d) {
+				return 0, false
+			}
+			v := binary.BigEndian.Uint32(d[off:])
+			off += 4
+			return v, true
+		}
+		big := false
+		var arg func(depth int) bool // false: end of data (or oversize found)
+		arg = func(depth int) bool {
+			for k := 0; k < 2; k++ { // name, type
+				n, ok := u32()
+				if !ok {
+					return false
+				}
+				if n > limit {
+					big = true
+					return false
+				}
+				if off+int(n) > len(d) {
+					return false
+				}
+				off += int(n)
+			}
+			bits, ok := u32()
+			if !ok {
+				return false
+			}
+			if bits > limit {
+				big = true
+				return false
+			}
+			cnt, ok := u32()
+			if !ok {
+				return false
+			}
+			if cnt > limit {
+				big = true
+				return false
+			}
+			if depth > 64 {
+				return false
+			}
+			for i := 0; i < int(cnt); i++ {
+				if !arg(depth + 1) {
+					return false
+				}
+			}
+			return true
+		}
+		nargs := int(binary.BigEndian.Uint32(d[12:])) + int(binary.BigEndian.Uint32(d[16:]))
+		for i := 0; i < nargs; i++ {
+			if !arg(0) {
+				break
+			}
+		}
+		return big
 	}
 	f := strings.Fields(string(d))
 	for i := 0; i < len(f) && i < 2; i++ {
